@@ -81,16 +81,8 @@ def run(tier):
         it = xgen.gen(g)
         fa = None
         if i % 3 == 0:
-            fa = g.pick(FOREIGN)
-            tgt = g.pick(["type", "member"])
-            ins = Instr("foreign", "foreign", text=fa)
-            if tgt == "type":
-                it.attrs.insert(g.r.randint(0, len(it.attrs)), ins)
-            else:
-                ms = it.fields if it.kind == "struct" else it.variants
-                if ms:
-                    m = g.pick(ms)
-                    m.attrs.insert(g.r.randint(0, len(m.attrs)), ins)
+            xgen.add_foreign(g, it, 1)
+            fa = next((a.f["text"] for _, _, l in it.all_attr_lists() for a in l if a.kind == "foreign"), None)
         cases.append(("free", it.render(), dict(profile=it.meta["profile"], foreign=fa)))
     for b in bases:
         cases.append(("free", b.render(), dict(profile=b.meta["profile"], foreign=None)))
